@@ -384,12 +384,37 @@ def optimize_circuit(seq):
                         # todo treat it as a failed merge for now
                         i += 1
                         continue
+                    if a.reg[0].ind != k:
+                        # this wire only carries a measured-parameter dependency of the
+                        # ops, they are merged on the wire they act on
+                        i += 1
+                        continue
                     op = a.op.merge(b.op)
+                    merged = None if op is None else Command(op, a.reg)
+                    # the same Commands also sit on the wires of the measured parameters
+                    # they depend on, replace them there as well
+                    for kk, qq in grid.items():
+                        if kk == k:
+                            continue
+                        if a in qq:
+                            j = qq.index(a)
+                            if merged is None:
+                                del qq[j]
+                            else:
+                                qq[j] = merged
+                            if b in qq:
+                                qq.remove(b)
+                        elif b in qq:
+                            j = qq.index(b)
+                            if merged is None:
+                                del qq[j]
+                            else:
+                                qq[j] = merged
                     # merge was successful, delete the old ops
                     del q[i : i + 2]
                     # insert the merged op (unless it's identity)
-                    if op is not None:
-                        q.insert(i, Command(op, a.reg))
+                    if merged is not None:
+                        q.insert(i, merged)
                     # move one spot backwards to try another merge
                     if i > 0:
                         i -= 1
